@@ -58,3 +58,4 @@ pub broadcast proof fn axiom_starts_with_char(s: Seq<char>, p: char, r: bool)
     requires #[trigger] starts_with_post::<char>(s, p, r)
     ensures r == (s.len() > 0 && s[0] == p)
 {}
+
